@@ -371,6 +371,23 @@ def run(ctx):
                     got_sites.add((g, hit[0], ab["ids"].get(os.path.realpath(r["message"].split("`")[1]))))
             if want_sites != got_sites:
                 problems.append("located file errors at %s, include statements that refer to an unreadable file %s" % (sorted(got_sites), sorted(want_sites)))
+            # the same for an included file that is read but cannot be parsed (audit C05 f1): one error at every include statement
+            want_psites, got_psites = set(), set()
+            for g in seen:
+                if not ab["ok"][g]:
+                    continue
+                for idx, row in enumerate(ab["table"].get(g, [])):
+                    t = spec_resolve(ab, row)
+                    if t is not None and ab["readable"][t] and not ab["ok"][t] and t not in ab["inputs"]:
+                        want_psites.add((g, idx, t))
+            for r in parse:
+                if r["message"].startswith("Failed to parse the included file") and r["primary"]:
+                    l = r["primary"][0]
+                    g = ab["ids"].get(os.path.realpath(l["file"]))
+                    hit = [i for i, (a, b) in enumerate(ab["inc_pos"].get(g, [])) if l["start"] == a]
+                    got_psites.add((g, hit[0] if len(hit) == 1 else -1, ab["ids"].get(os.path.realpath(r["message"].split("`")[1]))))
+            if want_psites != got_psites:
+                problems.append("parse errors of included files reported at %s, include statements that refer to an unparsable file %s" % (sorted(got_psites), sorted(want_psites)))
             if set(got_errs) != unresolved:
                 problems.append("include errors %s, unresolved includes %s" % (sorted(got_errs), sorted(unresolved)))
             stats["include errors"] += len(got_errs)
